@@ -105,8 +105,8 @@ def spec_e2e(o):
     for i in range(len(ts)):
         for j in range(i + 1, len(ts)):
             if ts[j] - ts[i] < (j - i - E2E_SLACK) * p:
-                return ("sx arp --rate %s: %d consecutive probes were seen on the wire within %d ns; the rate allows no "
-                        "less than %d ns" % (o["rate_str"], j - i + 1, ts[j] - ts[i], (j - i - SLACK) * p))
+                return ("sx %s --rate %s: %d consecutive probes were seen on the wire within %d ns; the rate allows no "
+                        "less than %d ns" % (o["args"], o["rate_str"], j - i + 1, ts[j] - ts[i], (j - i - SLACK) * p))
     return None
 
 
@@ -119,22 +119,56 @@ def spec_chunk(o):
 
 SPEC = {"lim": spec_lim, "wrap": spec_wrap, "pipe": spec_pipe, "eng": spec_eng, "e2e": spec_e2e, "chunk": spec_chunk}
 
-E2E_RATES = [("200/s", 200, 10 ** 9, "10.77.0.0/26"), ("25/100ms", 25, 10 ** 8, "10.77.0.0/26"),
-             ("1000/5s", 1000, 5 * 10 ** 9, "10.77.0.0/27"), ("2/16ms", 2, 16 * 10 ** 6, "10.77.0.0/26"),
-             ("120", 120, 10 ** 9, "10.77.0.0/27"), ("1/8ms", 1, 8 * 10 ** 6, "10.77.0.0/26"), ("10/50ms", 10, 5 * 10 ** 7, "10.77.0.0/25")]
+GW = "02:00:00:c1:60:02"
+
+
+def _arp(rate, cnt, win, cidr):
+    return {"cmd": "arp", "rate_str": rate, "rate": cnt, "per": win, "iface": "v1", "match": "arp",
+            "args": ["arp", "-i", "v0", cidr]}
+
+
+def _pkt(name, args):
+    return {"cmd": name, "rate_str": "50/s", "rate": 50, "per": 10 ** 9, "iface": "v1", "match": "dstmac:" + GW,
+            "args": args + ["-i", "v0", "--gwmac", GW, "-a", "ARP"]}
+
+
+def _app(name):
+    return {"cmd": name, "rate_str": "50/s", "rate": 50, "per": 10 ** 9, "iface": "lo", "match": "syn:10.77.0.1",
+            "args": [name, "-p", "1-48", "-w", "8", "10.77.0.1/32"]}
+
+
+# the first six: sx arp at different rates (quick tier picks one); then every other scan command at 50/s, 48 probes
+E2E_SPECS = [_arp("200/s", 200, 10 ** 9, "10.77.0.0/26"), _arp("25/100ms", 25, 10 ** 8, "10.77.0.0/26"),
+             _arp("1000/5s", 1000, 5 * 10 ** 9, "10.77.0.0/27"), _arp("2/16ms", 2, 16 * 10 ** 6, "10.77.0.0/26"),
+             _arp("120", 120, 10 ** 9, "10.77.0.0/27"), _arp("1/8ms", 1, 8 * 10 ** 6, "10.77.0.0/26"),
+             _arp("10/50ms", 10, 5 * 10 ** 7, "10.77.0.0/25"),
+             _pkt("icmp", ["icmp", "10.99.0.0/26"]),
+             _pkt("tcp", ["tcp", "--flags", "syn,ack", "-p", "1-48", "10.99.0.1/32"]),
+             _pkt("tcp syn", ["tcp", "syn", "-p", "1-48", "10.99.0.1/32"]),
+             _pkt("tcp fin", ["tcp", "fin", "-p", "1-48", "10.99.0.1/32"]),
+             _pkt("tcp null", ["tcp", "null", "-p", "1-48", "10.99.0.1/32"]),
+             _pkt("tcp xmas", ["tcp", "xmas", "-p", "1-48", "10.99.0.1/32"]),
+             _pkt("udp", ["udp", "-p", "1-48", "10.99.0.1/32"]),
+             _app("socks"), _app("docker"), _app("elastic")]
+N_ARP_SPECS = 7
 
 
 def e2e_runs(ctx, idxs):
-    """Real `sx arp --rate R` binary in a private network namespace; probes timestamped on the peer of a veth pair."""
+    """Real `sx <command> --rate R` binary in a private network namespace; probes timestamped by the kernel on the peer of
+    a veth pair (packet scans) or on the loopback interface (application scans: first SYN per destination port)."""
     import subprocess
     rows = []
     exe = os.path.join(ctx.work, "sx")
-    rc, out = verif.sh(["go", "build", "-o", exe, "."], env=verif.GOENV, cwd=verif.REPO, timeout=900)
-    if rc != 0:
-        ctx.broken.append(("correspondence: the sx binary does not build from the current tree", out[-1500:]))
-        return rows
+    if not os.path.exists(exe):
+        rc, out = verif.sh(["go", "build", "-o", exe, "."], env=verif.GOENV, cwd=verif.REPO, timeout=900)
+        if rc != 0:
+            ctx.broken.append(("correspondence: the sx binary does not build from the current tree", out[-1500:]))
+            return rows
     ns = "vc15n%d" % os.getpid()
     cap_exe = os.path.join(verif.ROOT, "harness", "bin", "c15")
+    arp = os.path.join(ctx.work, "arp.cache")
+    with open(arp, "w") as f:
+        f.write('{"ip":"10.77.0.2","mac":"%s"}\n' % GW)
     setup = [["ip", "netns", "add", ns],
              ["ip", "-n", ns, "link", "add", "v0", "type", "veth", "peer", "name", "v1"],
              ["ip", "-n", ns, "link", "set", "lo", "up"], ["ip", "-n", ns, "link", "set", "v0", "up"],
@@ -148,22 +182,24 @@ def e2e_runs(ctx, idxs):
         import time as _t
         _t.sleep(0.3)
         for n, i in enumerate(idxs):
-            rate_str, cnt, win, cidr = E2E_RATES[i % len(E2E_RATES)]
+            sp = E2E_SPECS[i % len(E2E_SPECS)]
             capf = os.path.join(ctx.work, "cap_%d.jsonl" % n)
-            cap = subprocess.Popen(["ip", "netns", "exec", ns, cap_exe, "-capture", "v1", "-out", capf, "-max", "4096",
-                                    "-idle", "600ms", "-total", "40s"], stdout=subprocess.PIPE, stderr=subprocess.STDOUT,
-                                   text=True, cwd=ctx.work)
-            o = {"kind": "e2e", "class": "e2e", "id": i, "rate_str": rate_str, "rate": cnt, "per": win, "cidr": cidr, "ts": []}
+            cap = subprocess.Popen(["ip", "netns", "exec", ns, cap_exe, "-capture", sp["iface"], "-match", sp["match"],
+                                    "-out", capf, "-max", "4096", "-idle", "600ms", "-total", "40s"],
+                                   stdout=subprocess.PIPE, stderr=subprocess.STDOUT, text=True, cwd=ctx.work)
+            args = [arp if a == "ARP" else a for a in sp["args"]]
+            o = {"kind": "e2e", "class": "e2e", "id": i % len(E2E_SPECS), "cmd": sp["cmd"], "rate_str": sp["rate_str"],
+                 "rate": sp["rate"], "per": sp["per"], "args": " ".join(sp["args"]), "ts": []}
             try:
                 line = cap.stdout.readline()
                 if line.strip() != "ready":
                     o["err"] = "capture did not start: " + line.strip()[:200]
                 else:
-                    rc, out = verif.sh(["ip", "netns", "exec", ns, exe, "arp", "-i", "v0", "--rate", rate_str,
-                                        "--exit-delay", "30ms", cidr], timeout=120)
+                    rc, out = verif.sh(["ip", "netns", "exec", ns, exe] + args + ["--rate", sp["rate_str"], "--exit-delay", "30ms"],
+                                       timeout=120)
                     o["sx_rc"] = rc
                     if rc != 0:
-                        o["err"] = "sx arp failed: " + out.strip()[-300:]
+                        o["err"] = "sx %s failed: %s" % (sp["cmd"], out.strip()[-300:])
                 cap.wait(timeout=60)
                 if os.path.exists(capf):
                     got = ctx.read_jsonl(capf)
@@ -179,65 +215,6 @@ def e2e_runs(ctx, idxs):
     finally:
         verif.sh(["ip", "netns", "del", ns], timeout=20)
     return rows
-
-
-def lcase_term(o):
-    z = verif.coq_z
-    return "{| l_rate := %s; l_per := %s; l_mode := %d; l_in := %s; l_obs := %s |}" % (
-        z(o["rate"]), z(o["per"]), o["mode"], verif.coq_list([z(x) for x in o["in"]]),
-        verif.coq_list(["(%s, %s, %s)" % (z(a), z(b), z(c)) for a, b, c in o["obs"]]))
-
-
-def wcase_term(o):
-    z = verif.coq_z
-    ops = []
-    for k, v in o.get("ops") or []:
-        ops.append({0: "WWrite %s" % z(v), 1: "WRead", 2: "WScan %s" % z(v)}[k])
-    return "{| w_ops := %s; w_log := %s |}" % (
-        verif.coq_list(ops), verif.coq_list(["(%s, %s)" % (z(a), z(b)) for a, b in o.get("log") or []]))
-
-
-def case_file(lrows, wrows):
-    body = ["From Coq Require Import ZArith List.", "From SX Require Import Model.Limiter Spec.C15.",
-            "Import ListNotations.", "Open Scope Z_scope.",
-            "Definition lcases : list lcase := [", ";\n".join(lcase_term(o) for o in lrows), "].",
-            "Definition wcases : list wcase := [", ";\n".join(wcase_term(o) for o in wrows), "].",
-            "Definition ML := Eval vm_compute in check_lall lcases.",
-            "Definition MW := Eval vm_compute in check_wall wcases.",
-            "Definition NL := Eval vm_compute in length lcases.",
-            "Definition NW := Eval vm_compute in length wcases.",
-            "Print ML. Print MW. Print NL. Print NW."]
-    return "\n".join(body)
-
-
-def parse_mismatch(ctx, out, name):
-    m = ctx.parse_result(out, name)
-    res = []
-    if m.strip() not in ("[]", "nil"):
-        for idx, codes in re.findall(r"\((\d+), \[([^\]]*)\]\)", m):
-            res.append((int(idx), [int(c.strip().strip("()")) for c in codes.split(";") if c.strip()]))
-        if not res:
-            raise verif.Broken("cannot parse mismatch list", m[:500])
-    return res
-
-
-def key_of(o):
-    if o["kind"] == "lim":
-        return "lim:" + o.get("rate_str", "")
-    return "%s:%s" % (o["kind"], o.get("class", ""))
-
-
-def report(ctx, o, why, args):
-    small = {k: v for k, v in o.items() if k not in ("obs", "in", "log", "ops", "starts")}
-    for k in ("obs", "in", "log", "ops", "starts"):
-        if o.get(k):
-            small[k + "_head"] = o[k][:40]
-            small[k + "_len"] = len(o[k])
-    path = ctx.write_replay("%s-%d-seed%d" % (o["kind"], o["id"], args["seed"]), {
-        "property": "C15", "what": why,
-        "input": {"kind": o["kind"], "id": o["id"], "seed": args["seed"], "k": args["k"], "rate": o.get("rate_str")},
-        "observed": small, "replay_cmd": "bin/check C15 --replay <this file>"})
-    ctx.findings.append({"key": key_of(o), "what": why, "replay": path})
 
 
 def run_harness(ctx, name, seed, n, wrap, pipe, eng, k=120, timeout=600):
@@ -303,13 +280,13 @@ def run(ctx):
                       nontrivial=bool(o.get("ops") or o.get("scans") or o.get("sent")),
                       sample={k: (v[:6] if isinstance(v, list) else v) for k, v in o.items() if k not in ("kind",)})
     if os.path.exists(os.path.join(verif.ROOT, "harness", "bin", "c15")):
-        erows = e2e_runs(ctx, [ctx.seed % len(E2E_RATES)] if quick else list(range(len(E2E_RATES))) * 4)
+        erows = e2e_runs(ctx, [ctx.seed % N_ARP_SPECS] if quick else list(range(len(E2E_SPECS))) + list(range(N_ARP_SPECS)) * 2)
         for o in erows:
             if o.get("err"):
-                ctx.skipped.append("e2e %s: %s" % (o["rate_str"], o["err"]))
+                ctx.skipped.append("e2e sx %s --rate %s: %s" % (o["cmd"], o["rate_str"], o["err"]))
                 continue
-            ctx.count("e2e:" + o["rate_str"], ("e2e", o["rate_str"], len(o["ts"])), nontrivial=True,
-                      sample={"cmd": "sx arp -i v0 --rate %s %s" % (o["rate_str"], o["cidr"]), "probes_seen": len(o["ts"]),
+            ctx.count("e2e:%s:%s" % (o["cmd"], o["rate_str"]), ("e2e", o["cmd"], o["rate_str"], len(o["ts"])), nontrivial=True,
+                      sample={"cmd": "sx %s --rate %s" % (o["args"], o["rate_str"]), "probes_seen": len(o["ts"]),
                               "span_ns": o["ts"][-1] - o["ts"][0], "first_ts": o["ts"][:6]})
         rows += [o for o in erows if not o.get("err")]
     judge(ctx, rows, args)
@@ -343,7 +320,7 @@ def run(ctx):
         for sd in (ctx.seed + 101, ctx.seed + 202):
             a2 = {"seed": sd, "k": 400}
             more = run_harness(ctx, "search.jsonl", sd, 1500, 300, 10, 7, k=400, timeout=900)
-            more += [o for o in e2e_runs(ctx, range(len(E2E_RATES))) if not o.get("err")]
+            more += [o for o in e2e_runs(ctx, range(len(E2E_SPECS))) if not o.get("err")]
             if judge(ctx, [o for o in more if o["kind"] != "lim" or o.get("parse_ok")], a2):
                 break
     return ctx.finish(rule=RULE)
@@ -360,7 +337,8 @@ def replay(ctx, path):
     if i["kind"] == "e2e":
         got = e2e_runs(ctx, [i["id"]])
         why = spec_e2e(got[0]) if got else None
-        print("replay sx arp --rate %s: %s" % (i.get("rate"), why or (got and got[0].get("err")) or "property holds on this run"))
+        print("replay sx %s --rate %s: %s" % (got[0]["args"] if got else "", i.get("rate"),
+                                               why or (got and got[0].get("err")) or "property holds on this run"))
         return 1 if why else 0
     ok, out = ctx.harness_run("c15", ["-out", "one.jsonl", "-seed", i["seed"], "-k", i["k"], "-n", 1000000, "-wrap", 1000000,
                                       "-pipe", 1000, "-eng", 7, "-one", "%s,%d" % (i["kind"], i["id"])], timeout=300)
